@@ -384,6 +384,87 @@ fn run_poly(cx: &mut CaseCx, case: &Value) {
   cx.sample(json!({"thresholds": ts, "distinct_nonconstant_coefficients": seen.len()}));
 }
 
+
+/// clients that reuse ONE generator object for several measurements must not tie the measurements together
+fn run_generator_reuse(cx: &mut CaseCx, case: &Value) {
+  use sta_rs::{Message, MessageGenerator, SingleMeasurement};
+  let t = case["t"].as_u64().unwrap() as u32;
+  let x = b"measurement X".to_vec();
+  let y = b"measurement Y (another one)".to_vec();
+  let epoch = b"e".to_vec();
+  let report = |mg: &MessageGenerator| -> Option<Message> {
+    let mut rnd = [0u8; 32];
+    guard(|| mg.sample_local_randomness(&mut rnd)).ok()?;
+    guard(|| Message::generate(mg, &rnd, None).ok()).ok().flatten()
+  };
+  // t-1 reports of X from fresh generators, then Y's reports from a generator that served X before
+  let mut xs = vec![];
+  for _ in 0..t - 1 {
+    xs.push(report(&MessageGenerator::new(SingleMeasurement::new(&x), t, &epoch)));
+  }
+  let mut mg = MessageGenerator::new(SingleMeasurement::new(&x), t, &epoch);
+  let _warm = report(&mg);
+  mg.x = SingleMeasurement::new(&y);
+  let mut ys = vec![];
+  for _ in 0..t - 1 {
+    ys.push(report(&mg));
+  }
+  let pool: Vec<sta_rs::Share> = xs.into_iter().chain(ys.into_iter()).flatten().map(|m| m.share).collect();
+  if pool.len() != 2 * (t as usize - 1) {
+    return;
+  }
+  // neither X (t-1 reports) nor Y (t-1 reports) reaches the threshold: every sequence must fail
+  for_each_seq(pool.len(), (t as usize + 1).min(5), |seq| {
+    if seq.is_empty() {
+      return;
+    }
+    let shares: Vec<sta_rs::Share> = seq.iter().map(|&i| pool[i].clone()).collect();
+    cx.eval();
+    cx.count("states", 1);
+    cx.count("transitions", 1);
+    cx.nontrivial(fnv_str(&format!("{}|{:?}", t, seq)));
+    match recover_msg(&shares) {
+      Ok(Err(_)) => cx.count("rejected", 1),
+      Ok(Ok(_)) => cx.viol("C02/ok-without-any-threshold", format!("t-1 reports of X plus t-1 reports of Y (Y's from a generator object that reported X before): recovery succeeded although no measurement reaches the threshold {}", t), json!({"t": t, "collection": seq.iter().map(|&i| if i < t as usize - 1 { format!("X#{}", i) } else { format!("Y#{}", i + 1 - t as usize) }).collect::<Vec<_>>()})),
+      Err(p) => cx.viol("C02/recover-panicked", p, json!({"t": t})),
+    }
+  });
+  cx.outcome(format!("generator reuse t={}", t));
+}
+
+/// every payload length: no 16-byte window of the measurement in the clear (all lengths 16..=400 once)
+fn run_length_sweep(cx: &mut CaseCx, case: &Value) {
+  let lo = case["lo"].as_u64().unwrap() as usize;
+  for len in lo..lo + 32 {
+    for aux in [None, Some(prbytes(len as u64, 24))] {
+      let meas = prbytes(0x5CA + len as u64, len);
+      let rnd = local_randomness(&meas, b"e", 2);
+      let msg = match gen_report(&meas, b"e", 2, &rnd, &aux) {
+        Ok(m) => m,
+        Err(e) => {
+          cx.viol("C02/generate-failed", e, json!({"len": len}));
+          continue;
+        }
+      };
+      let enc = msg.to_bytes();
+      cx.eval();
+      cx.nontrivial(fnv(&enc));
+      for (what, secret) in [("measurement", &meas), ("associated data", aux.as_ref().unwrap_or(&vec![]))] {
+        if secret.len() < 16 {
+          continue;
+        }
+        for off in 0..=(secret.len() - 16) {
+          if let Some(at) = find(&enc, &secret[off..off + 16]) {
+            cx.viol(format!("C02/secret-in-clear/{}", what.split(' ').next().unwrap()), format!("{} bytes {}..{} appear in the clear at offset {} of the encoded report (measurement length {}, payload length {})", what, off, off + 16, at, len, 4 + len + aux.as_ref().map(|a| 4 + a.len()).unwrap_or(0)), json!({"measurement_len": len, "aux_len": aux.as_ref().map(|a| a.len()), "offset": at}));
+            break;
+          }
+        }
+      }
+    }
+  }
+  cx.outcome("length sweep");
+}
+
 fn gen_mix(tier: Tier) -> Vec<Value> {
   let mut v = vec![];
   let ts: &[u64] = if tier.thorough() { &[2, 3, 4] } else { &[2, 3] };
@@ -457,6 +538,20 @@ pub fn spec() -> PropSpec {
         gen: gen_scan,
         run: run_scan,
         min_counts: &[("evaluations", 500)],
+      },
+      Check {
+        name: "generator-reuse",
+        rule: "history on one generator object: it reports X, its measurement field is reassigned to Y, it reports Y t-1 times; together with t-1 fresh reports of X every sequence (length <= t+1) must fail - neither measurement reaches the threshold",
+        gen: |_| (2..=4u64).map(|t| json!({"t": t})).collect(),
+        run: run_generator_reuse,
+        min_counts: &[("rejected", 100)],
+      },
+      Check {
+        name: "payload-length-sweep",
+        rule: "every measurement length 16..=431 (with and without 24 bytes of associated data): every 16-byte window of the measurement / associated data against every offset of the encoded report (a cipher that skips a block at one length residue)",
+        gen: |_| (0..13u64).map(|i| json!({"lo": 16 + i * 32})).collect(),
+        run: run_length_sweep,
+        min_counts: &[("evaluations", 800)],
       },
       Check {
         name: "polynomial-shape",
